@@ -73,13 +73,13 @@ func (self *containerMetaList) lookAhead() {
 	for {
 		if self.choiceCase != nil {
 			m = self.choiceCase.nextMeta()
+			if self.choiceCase.err != nil {
+				self.err = self.choiceCase.err
+				self.choiceCase = nil
+				self.main = nil
+				break
+			}
 			if m == nil {
-				if self.choiceCase.err != nil {
-					self.err = self.choiceCase.err
-					self.choiceCase = nil
-					self.main = nil
-					break
-				}
 				self.choiceCase = nil
 				continue
 			}
